@@ -96,6 +96,19 @@ def correspondence_and_oracle(ctx, rng, n):
                        bad == 0, kind="correspondence", detail="disagreements %d" % bad)
 
 
+CLAMP_REQ = []
+
+
+def bits(x):
+    import struct
+    return struct.unpack("<Q", struct.pack("<d", float(x)))[0]
+
+
+def unbits(n):
+    import struct
+    return struct.unpack("<d", struct.pack("<Q", int(n)))[0]
+
+
 def oracle_distribute(ctx, rng, n):
     """real Orificing.distribute on a stub with synthetic parametric curves"""
     import dassh
@@ -159,6 +172,14 @@ def oracle_distribute(ctx, rng, n):
             ctx.count("distribute_with_limit")
             if o._dp_limit.any():
                 ctx.count("distribute_limit_active")
+            # clamp clause against the Lean model (Orifice.clampGroup): a group the code flags as limited carries exactly the
+            # smallest of its members' limit flows (each member's own type curve), the others are below all of them
+            for g in range(ng - 1):
+                members = np.where(labels == g)[0]
+                lims_g = [float(np.interp(lim * 1e6, curves[typ_of[ai]][::-1, 3], curves[typ_of[ai]][::-1, 2])) for ai in members]
+                if o._dp_limit[g]:
+                    CLAMP_REQ.append(("clamp %d | %s" % (bits(2.0 * max(lims_g) + 1.0), " ".join(str(bits(v)) for v in lims_g)),
+                                      float(m[members[0]]), dict(group=g, limits=lims_g, types=typ_of[members].tolist())))
         ctx.count("distribute_ok")
 
 
@@ -168,7 +189,20 @@ def run(ctx):
                 "real Orificing._group / distribute on stub instances; non-trivial = one list/group-count pair")
     ctx.prove("Dassh.Props.C20")
     correspondence_and_oracle(ctx, rng, 1200 if ctx.thorough else 250)
+    del CLAMP_REQ[:]
     oracle_distribute(ctx, rng, 200 if ctx.thorough else 50)
+    if CLAMP_REQ and modelio.build_driver(ctx):
+        bad = 0
+        for rep, (req, real, info) in zip(modelio.ask([r[0] for r in CLAMP_REQ]), CLAMP_REQ):
+            parts = rep.split()
+            mv = unbits(parts[1]) if parts[0] == "ok" else float('nan')
+            if not abs(mv - real) <= 1e-9 * max(abs(real), 1.0):
+                bad += 1
+                if bad == 1:
+                    ctx.problem("correspondence", "Model.Orifice.clampGroup vs Orificing.distribute",
+                                "limited group carries %.9g kg/s, the model's clamp gives %.9g (%s)" % (real, mv, info))
+        ctx.obligation("correspondence: groups flagged as pressure-drop limited carry Model.Orifice.clampGroup of their members' "
+                       "limits (%d groups)" % len(CLAMP_REQ), bad == 0, kind="correspondence", detail="disagreements %d" % bad)
     ctx.nontrivial = ctx.evals
     ctx.traces = ctx.evals
     ctx.trusted += ["hand model lean/Dassh/Model/Orifice.lean tied to Orificing._group by differential correspondence "
